@@ -1,4 +1,587 @@
-//! C18 — stub, replaced when the property's harness lands.
-use crate::util::{Em, Rng};
+//! C18 — PCA (`linfa_reduction::Pca`): fit / accessors / predict / inverse_transform.
+//!
+//! Correspondence: the Lean model receives the record matrix, the embedding size, the whitening
+//! flag and what the external truncated SVD returned on the centred matrix (obtained through the
+//! `verif_hooks_c18::truncated_svd_largest` hook — same solver, order and seed as `fit`), and
+//! recomputes mean, sigma floor, whitening scale, explained variance (ratio), `predict` and
+//! `inverse_transform` on a few query rows.
+//!
+//! Oracle: everything the statement says, recomputed from first principles against a dense
+//! cyclic-Jacobi eigen-decomposition of the sample covariance written below.
+use crate::util::*;
+use linfa::traits::{Fit, Predict};
+use linfa::DatasetBase;
+use linfa_reduction::{Pca, ReductionError};
+use ndarray::{Array1, Array2, Axis};
 
-pub fn run(_em: &mut Em, _rng: &mut Rng) {}
+type Mat = Vec<Vec<f64>>;
+
+// ---------------------------------------------------------------------------------------------
+// dense helpers (naive, sequential)
+
+fn to_arr(x: &Mat, p: usize) -> Array2<f64> {
+    Array2::from_shape_fn((x.len(), p), |(i, j)| x[i][j])
+}
+fn from_arr(a: &Array2<f64>) -> Mat {
+    a.rows().into_iter().map(|r| r.to_vec()).collect()
+}
+fn dot(a: &[f64], b: &[f64]) -> f64 {
+    a.iter().zip(b).map(|(x, y)| x * y).sum()
+}
+fn col_mean(x: &Mat, p: usize) -> Vec<f64> {
+    let n = x.len() as f64;
+    (0..p).map(|j| x.iter().map(|r| r[j]).sum::<f64>() / n).collect()
+}
+fn centred(x: &Mat, m: &[f64]) -> Mat {
+    x.iter().map(|r| r.iter().zip(m).map(|(a, b)| a - b).collect()).collect()
+}
+/// `Aᵀ A / d` for the rows of `a` (width `p`)
+fn gram(a: &Mat, p: usize, d: f64) -> Mat {
+    let mut c = vec![vec![0.0; p]; p];
+    for r in a {
+        for i in 0..p {
+            for j in 0..p {
+                c[i][j] += r[i] * r[j];
+            }
+        }
+    }
+    for i in 0..p {
+        for j in 0..p {
+            c[i][j] /= d;
+        }
+    }
+    c
+}
+fn max_abs(a: &Mat) -> f64 {
+    a.iter().flat_map(|r| r.iter()).fold(0.0f64, |m, x| m.max(x.abs()))
+}
+
+/// cyclic Jacobi for a symmetric matrix: eigenvalues (descending) and the matching eigenvectors
+/// as rows
+fn jacobi_eigh(c: &Mat) -> (Vec<f64>, Mat) {
+    let p = c.len();
+    let mut a = c.clone();
+    let mut v = vec![vec![0.0; p]; p];
+    for i in 0..p {
+        v[i][i] = 1.0;
+    }
+    for _sweep in 0..100 {
+        let mut off = 0.0;
+        let mut diag = 0.0;
+        for i in 0..p {
+            diag += a[i][i] * a[i][i];
+            for j in 0..p {
+                if i != j {
+                    off += a[i][j] * a[i][j];
+                }
+            }
+        }
+        if off <= 1e-32 * diag || off == 0.0 {
+            break;
+        }
+        for i in 0..p {
+            for j in (i + 1)..p {
+                if a[i][j] == 0.0 {
+                    continue;
+                }
+                let theta = (a[j][j] - a[i][i]) / (2.0 * a[i][j]);
+                let t = theta.signum() / (theta.abs() + (theta * theta + 1.0).sqrt());
+                let t = if theta == 0.0 { 1.0 } else { t };
+                let cs = 1.0 / (t * t + 1.0).sqrt();
+                let sn = t * cs;
+                // A <- Jᵀ A J, V <- V J  (rotation in the (i, j) plane)
+                for k in 0..p {
+                    let aki = a[k][i];
+                    let akj = a[k][j];
+                    a[k][i] = cs * aki - sn * akj;
+                    a[k][j] = sn * aki + cs * akj;
+                }
+                for k in 0..p {
+                    let aik = a[i][k];
+                    let ajk = a[j][k];
+                    a[i][k] = cs * aik - sn * ajk;
+                    a[j][k] = sn * aik + cs * ajk;
+                }
+                for k in 0..p {
+                    let vki = v[k][i];
+                    let vkj = v[k][j];
+                    v[k][i] = cs * vki - sn * vkj;
+                    v[k][j] = sn * vki + cs * vkj;
+                }
+            }
+        }
+    }
+    let mut idx: Vec<usize> = (0..p).collect();
+    idx.sort_by(|x, y| a[*y][*y].partial_cmp(&a[*x][*x]).unwrap());
+    let vals = idx.iter().map(|i| a[*i][*i]).collect();
+    let vecs = idx.iter().map(|i| (0..p).map(|k| v[k][*i]).collect()).collect();
+    (vals, vecs)
+}
+
+// ---------------------------------------------------------------------------------------------
+// generators
+
+fn gauss(rng: &mut Rng) -> f64 {
+    // sum of 12 uniforms - 6: close enough to normal, bounded, reproducible
+    (0..12).map(|_| rng.unit()).sum::<f64>() - 6.0
+}
+/// random orthogonal p×p matrix as a product of Givens rotations
+fn rand_orth(rng: &mut Rng, p: usize) -> Mat {
+    let mut q = vec![vec![0.0; p]; p];
+    for i in 0..p {
+        q[i][i] = 1.0;
+    }
+    for _ in 0..(2 * p * p) {
+        if p < 2 {
+            break;
+        }
+        let i = rng.below(p);
+        let mut j = rng.below(p - 1);
+        if j >= i {
+            j += 1;
+        }
+        let th = rng.unit() * std::f64::consts::TAU;
+        let (s, c) = th.sin_cos();
+        for r in 0..p {
+            let a = q[r][i];
+            let b = q[r][j];
+            q[r][i] = c * a - s * b;
+            q[r][j] = s * a + c * b;
+        }
+    }
+    q
+}
+fn mat_mul(a: &Mat, b: &Mat) -> Mat {
+    let m = b[0].len();
+    a.iter().map(|r| (0..m).map(|j| r.iter().zip(b).map(|(x, br)| x * br[j]).sum()).collect()).collect()
+}
+
+const KINDS: [&str; 7] = ["lattice", "isotropic", "anisotropic", "lowrank_noise", "offset", "badly_scaled", "rank_deficient"];
+
+fn gen_matrix(rng: &mut Rng, kind: &str, n: usize, p: usize) -> Mat {
+    match kind {
+        "lattice" => (0..n).map(|_| (0..p).map(|_| rng.range(-8, 8) as f64).collect()).collect(),
+        "isotropic" => (0..n).map(|_| (0..p).map(|_| gauss(rng)).collect()).collect(),
+        "anisotropic" => {
+            // axis scales 1, 10^-s, 10^-2s …, s in (0.3, 1], then a random rotation
+            let s = 0.3 + 0.7 * rng.unit();
+            let sc: Vec<f64> = (0..p).map(|j| 10f64.powf(-s * j as f64)).collect();
+            let q = rand_orth(rng, p);
+            let g: Mat = (0..n).map(|_| (0..p).map(|j| gauss(rng) * sc[j]).collect()).collect();
+            mat_mul(&g, &q)
+        }
+        "lowrank_noise" => {
+            let r = 1 + rng.below(p.max(2) - 1).min(p - 1);
+            let r = r.min(p);
+            let noise = 10f64.powf(-(2.0 + 3.0 * rng.unit()));
+            let b: Mat = (0..r).map(|_| (0..p).map(|_| gauss(rng)).collect()).collect();
+            (0..n)
+                .map(|_| {
+                    let w: Vec<f64> = (0..r).map(|_| gauss(rng)).collect();
+                    (0..p).map(|j| (0..r).map(|i| w[i] * b[i][j]).sum::<f64>() + noise * gauss(rng)).collect()
+                })
+                .collect()
+        }
+        "offset" => {
+            let off: Vec<f64> = (0..p).map(|_| (rng.unit() - 0.5) * 2.0 * 10f64.powf(rng.range(0, 5) as f64)).collect();
+            (0..n).map(|_| (0..p).map(|j| gauss(rng) + off[j]).collect()).collect()
+        }
+        "badly_scaled" => {
+            let sc: Vec<f64> = (0..p).map(|_| 10f64.powf(rng.range(-2, 2) as f64)).collect();
+            let off: Vec<f64> = (0..p).map(|_| if rng.coin() { 0.0 } else { rng.range(-50, 50) as f64 }).collect();
+            (0..n).map(|_| (0..p).map(|j| (gauss(rng) + off[j]) * sc[j]).collect()).collect()
+        }
+        // exact linear dependence between columns (integers): outside "low-rank plus noise",
+        // kept as a separate class — the SVD may return fewer than k components here
+        _ => {
+            let r = 1 + rng.below(p.max(2) - 1).min(p.saturating_sub(2));
+            (0..n)
+                .map(|_| {
+                    let base: Vec<f64> = (0..r).map(|_| rng.range(-6, 6) as f64).collect();
+                    (0..p).map(|j| if j < r { base[j] } else { base[j % r] * (1 + j / r) as f64 }).collect()
+                })
+                .collect()
+        }
+    }
+}
+
+// ---------------------------------------------------------------------------------------------
+
+fn show_err(e: &ReductionError) -> String {
+    match e {
+        ReductionError::NotEnoughSamples => "err NotEnoughSamples".into(),
+        ReductionError::EmbeddingTooSmall(k) => format!("err EmbeddingTooSmall({})", k),
+        ReductionError::LinalgError(_) => "err Linalg".into(),
+        other => format!("err Other({})", other),
+    }
+}
+fn approx2(m: &Mat) -> String {
+    list2(m.iter().map(|r| r.iter()), |x| format!("~{}", hex64c(*x)))
+}
+fn exact2(m: &Mat) -> String {
+    list2(m.iter().map(|r| r.iter()), |x| hex64c(*x))
+}
+
+struct Fitted {
+    mean: Vec<f64>,
+    sigma: Vec<f64>,
+    comp: Mat,
+    ev: Vec<f64>,
+    evr: Vec<f64>,
+    model: Pca<f64>,
+}
+fn fit_pca(x: &Mat, p: usize, k: usize, w: bool) -> Result<Fitted, ReductionError> {
+    let ds = DatasetBase::from(to_arr(x, p));
+    let model = Pca::params(k).whiten(w).fit(&ds)?;
+    Ok(Fitted {
+        mean: model.mean().to_vec(),
+        sigma: model.singular_values().to_vec(),
+        comp: from_arr(model.components()),
+        ev: model.explained_variance().to_vec(),
+        evr: model.explained_variance_ratio().to_vec(),
+        model,
+    })
+}
+fn predict(m: &Pca<f64>, q: &Mat, p: usize) -> Mat {
+    if q.is_empty() {
+        return vec![];
+    }
+    from_arr(&m.predict(&to_arr(q, p)))
+}
+fn inverse(m: &Pca<f64>, z: &Mat) -> Mat {
+    if z.is_empty() {
+        return vec![];
+    }
+    let k = z[0].len();
+    from_arr(&m.inverse_transform(to_arr(z, k)))
+}
+
+/// the statement's clauses on one training matrix, embedding size and whitening flag
+fn oracle(ctx: &mut Ctx, kind: &str, x: &Mat, p: usize, k: usize, w: bool, f: &Fitted) {
+    let n = x.len();
+    let kp = regime(k, p);
+    let class = format!("data={};{};whiten={}", kind, kp, w as u8);
+    let m = col_mean(x, p);
+    let xc = centred(x, &m);
+    let c = gram(&xc, p, (n - 1) as f64);
+    let (lam, _u) = jacobi_eigh(&c);
+    let lmax = lam[0].max(0.0);
+    if !(lmax > 0.0) {
+        ctx.mark_trivial();
+        return;
+    }
+    let scale = max_abs(&xc).max(f64::MIN_POSITIVE);
+    let r = f.sigma.len();
+    // The truncated SVD drops singular values with sigma_i^2 <= eps*1e6*sigma_max^2 (2.2e-10 relative
+    // variance; linfa's test_explained_variance_cutoff pins that), so fewer than k components may
+    // come back.  Required: never more than k, and every direction whose variance is clearly above
+    // that cut-off (1e-9 of the largest) is present; `max_variance` below then bounds what the
+    // dropped ones could have carried.
+    let needed = lam.iter().take(k).filter(|l| **l > 1e-9 * lmax).count();
+    ctx.require(r <= k && r >= needed, "component_count", &class, || format!("{} components for k={}; {} of the k leading eigenvalues are above 1e-9 of the largest: {:?}", r, k, needed, lam));
+    ctx.require(f.comp.len() == r && f.comp.iter().all(|v| v.len() == p), "component_count", &class, || format!("components shape {}x? vs sigma {}", f.comp.len(), r));
+    if f.comp.len() != r || r == 0 {
+        return;
+    }
+    let finite = f.sigma.iter().all(|s| s.is_finite()) && f.comp.iter().flatten().all(|v| v.is_finite()) && f.mean.iter().all(|v| v.is_finite());
+    ctx.require(finite, "finite", &class, || format!("non-finite sigma/components: sigma={:?}", f.sigma));
+    if !finite {
+        return;
+    }
+    // mean
+    let dm = f.mean.iter().zip(&m).fold(0.0f64, |a, (x, y)| a.max((x - y).abs()));
+    ctx.require(dm <= 1e-9 * (scale + max_abs(&vec![m.clone()])), "mean", &class, || format!("mean differs from the column mean by {:e}", dm));
+
+    // unit directions: without whitening the rows themselves; with whitening the rows are the
+    // directions times sqrt(n-1)/sigma_i, so divide that factor out again
+    let cs = ((n - 1) as f64).sqrt();
+    let dirs: Mat = if w { f.comp.iter().zip(&f.sigma).map(|(v, s)| v.iter().map(|a| a * s / cs).collect()).collect() } else { f.comp.clone() };
+
+    // (1) orthonormal
+    let mut worst = 0.0f64;
+    for i in 0..r {
+        for j in 0..r {
+            let d = dot(&dirs[i], &dirs[j]) - if i == j { 1.0 } else { 0.0 };
+            worst = worst.max(d.abs());
+        }
+    }
+    let worst_orth = worst;
+    ctx.require(worst <= 1e-7, "orthonormal", &class, || format!("max |V Vt - I| = {:e}", worst));
+    // (2) order
+    ctx.require(f.sigma.windows(2).all(|w| w[0] >= w[1]), "sigma_order", &class, || format!("singular values not non-increasing: {:?}", f.sigma));
+    // (3) true variances: sigma_i^2/(n-1) is the i-th largest eigenvalue of the covariance
+    let theta: Vec<f64> = f.sigma.iter().map(|s| s * s / (n - 1) as f64).collect();
+    let tol_l = 1e-6 * lmax;
+    for i in 0..r {
+        let d = (theta[i] - lam[i].max(0.0)).abs();
+        // singular values floored at 1e-8 are allowed to sit above a vanishing eigenvalue
+        let floored = f.sigma[i] <= 1e-8;
+        ctx.require(d <= tol_l || floored, "leading_eigenvalues", &class, || {
+            format!("sigma[{}]^2/(n-1) = {:e} but eigenvalue #{} of the covariance is {:e} (largest {:e}); sigma={:?} eig={:?}", i, theta[i], i, lam[i], lmax, f.sigma, lam)
+        });
+    }
+    // (4) eigen-certificate: C v_i = theta_i v_i
+    let mut worst_res = 0.0f64;
+    for i in 0..r {
+        let cv: Vec<f64> = c.iter().map(|row| dot(row, &dirs[i])).collect();
+        let res: f64 = cv.iter().zip(&dirs[i]).map(|(a, b)| (a - theta[i] * b).powi(2)).sum::<f64>().sqrt();
+        worst_res = worst_res.max(res);
+    }
+    ctx.require(worst_res <= 1e-5 * lmax, "eigenvector_residual", &class, || format!("max |C v - theta v| = {:e} (largest eigenvalue {:e})", worst_res, lmax));
+
+    // (5) projected training data
+    let z = predict(&f.model, x, p);
+    let zm = col_mean(&z, r);
+    let zc = centred(&z, &zm);
+    let cz = gram(&zc, r, (n - 1) as f64);
+    if !w {
+        let zscale = lmax.sqrt();
+        ctx.require(zm.iter().all(|v| v.abs() <= 1e-7 * zscale.max(scale)), "projected_centred", &class, || format!("projected training data has mean {:?}", zm));
+        let mut off = 0.0f64;
+        for i in 0..r {
+            for j in 0..r {
+                if i != j {
+                    off = off.max(cz[i][j].abs());
+                }
+            }
+        }
+        ctx.require(off <= 1e-6 * lmax, "uncorrelated", &class, || format!("max off-diagonal covariance of the projection {:e} (largest eigenvalue {:e})", off, lmax));
+        // sample variances of the coordinates are the reported explained variances
+        ctx.require(f.ev.len() == r, "explained_variance", &class, || format!("{} explained variances for {} components", f.ev.len(), r));
+        for i in 0..r.min(f.ev.len()) {
+            let d = (cz[i][i] - f.ev[i]).abs();
+            ctx.require(d <= 1e-6 * lmax, "explained_variance", &format!("{};k{}", class, if r == 1 { "=1" } else { ">1" }), || {
+                format!("coordinate {} of the projected training data has sample variance {:e}, explained_variance() reports {:e} (n={}, components={})", i, cz[i][i], f.ev[i], n, r)
+            });
+        }
+        // no k-dimensional orthogonal projection retains more: Ky Fan bound = sum of the top-r eigenvalues
+        let kept: f64 = (0..r).map(|i| cz[i][i]).sum();
+        let best: f64 = (0..k).map(|i| lam[i].max(0.0)).sum();
+        ctx.require(kept >= best - 1e-6 * lmax * r as f64, "max_variance", &class, || format!("retained variance {:e} < optimum {:e} (sum of the {} largest eigenvalues)", kept, best, k));
+    } else {
+        // whitened: identity covariance; the error of a covariance eigenvalue theta_i computed
+        // through X^T X in f64 is ~ eps*lmax, hence eps*lmax/theta_i relative
+        let lmin = (0..r).map(|i| lam[i]).fold(f64::INFINITY, f64::min);
+        let floored = f.sigma.iter().any(|s| *s <= 1e-8);
+        let tol = 1e-6 + 1e-12 * (lmax / lmin.max(f64::MIN_POSITIVE));
+        let mut worst = 0.0f64;
+        for i in 0..r {
+            for j in 0..r {
+                worst = worst.max((cz[i][j] - if i == j { 1.0 } else { 0.0 }).abs());
+            }
+        }
+        if floored || !(tol < 1e-3) {
+            ctx.mark_trivial();
+        } else {
+            ctx.require(worst <= tol, "whitened_identity", &class, || {
+                let rel: Vec<f64> = (0..r)
+                    .map(|i| {
+                        let cv: Vec<f64> = c.iter().map(|row| dot(row, &dirs[i])).collect();
+                        cv.iter().zip(&dirs[i]).map(|(a, b)| (a - theta[i] * b).powi(2)).sum::<f64>().sqrt() / theta[i]
+                    })
+                    .collect();
+                format!("max |cov(projected) - I| = {:e} (tolerance {:e}); |C v_i - theta_i v_i|/theta_i = {:?}; sigma = {:?}; max |V Vt - I| = {:e}", worst, tol, rel, f.sigma, worst_orth)
+            });
+        }
+    }
+
+    // (6) inverse_transform ∘ transform = orthogonal projection onto span(dirs) about the mean
+    let back = inverse(&f.model, &z);
+    let mut worst_p = 0.0f64;
+    let mut worst_id = 0.0f64;
+    for (row, b) in xc.iter().zip(&back) {
+        let coef: Vec<f64> = dirs.iter().map(|v| dot(row, v)).collect();
+        for j in 0..p {
+            let want = m[j] + (0..r).map(|i| coef[i] * dirs[i][j]).sum::<f64>();
+            worst_p = worst_p.max((b[j] - want).abs());
+            worst_id = worst_id.max((b[j] - (row[j] + m[j])).abs());
+        }
+    }
+    let big = scale + max_abs(&vec![m.clone()]);
+    ctx.require(worst_p <= 1e-7 * big, "inverse_is_projection", &class, || format!("inverse_transform(transform(x)) differs from mean + P(x-mean) by {:e} (data scale {:e})", worst_p, big));
+    if r == p {
+        ctx.require(worst_id <= 1e-6 * big, "inverse_identity_full", &class, || format!("all components kept but inverse_transform(transform(x)) differs from x by {:e}", worst_id));
+    }
+
+    // (7) ratios finite, non-negative, proportional to the explained variances
+    ctx.require(f.evr.len() == f.ev.len(), "ratio", &class, || "ratio length".into());
+    let okfin = f.evr.iter().all(|v| v.is_finite() && *v >= 0.0) && f.ev.iter().all(|v| v.is_finite() && *v >= 0.0);
+    ctx.require(okfin, "ratio_finite_nonneg", &format!("{};k{}", class, if r == 1 { "=1" } else { ">1" }), || format!("explained_variance={:?} ratio={:?}", f.ev, f.evr));
+    if okfin && f.evr.len() == f.ev.len() {
+        let mut bad = 0.0f64;
+        for i in 0..r {
+            for j in 0..r {
+                let a = f.evr[i] * f.ev[j];
+                let b = f.evr[j] * f.ev[i];
+                bad = bad.max((a - b).abs() / (a.abs() + b.abs()).max(f64::MIN_POSITIVE));
+            }
+        }
+        ctx.require(bad <= 1e-12, "ratio_proportional", &class, || format!("ratios not proportional to the explained variances: ev={:?} ratio={:?}", f.ev, f.evr));
+    }
+}
+
+/// LOBPCG's design envelope (scipy falls back to a dense solver below `5k`; linfa-linalg has that
+/// guard commented out): all components / block too large for the dimension / supported
+fn regime(k: usize, p: usize) -> &'static str {
+    if k == p { "k=p" } else if p < 5 * k { "k<p<5k" } else { "5k<=p" }
+}
+
+fn op_fit(em: &mut Em, kind: &'static str, x: Mat, p: usize, k: usize, w: bool, q: Mat) {
+    let n = x.len();
+    let xa = to_arr(&x, p);
+    // what the external solver returns on the centred matrix (None when fit rejects before it)
+    let guard_rejects = n == 0 || p < k || k == 0;
+    let svd = if guard_rejects {
+        None
+    } else {
+        let mean = xa.mean_axis(Axis(0)).unwrap();
+        let xc = &xa - &mean;
+        // the solver may panic (it unwraps a partial_cmp); `fit` then panics the same way
+        match std::panic::catch_unwind(std::panic::AssertUnwindSafe(|| linfa_reduction::verif_hooks_c18::truncated_svd_largest(xc, k))) {
+            Ok(r) => Some(r),
+            Err(_) => Some(Err("panic".to_string())),
+        }
+    };
+    let svd_s = match &svd {
+        None => "svd=none".to_string(),
+        Some(Err(e)) if e == "panic" => "svd=panic".to_string(),
+        Some(Err(_)) => "svd=err".to_string(),
+        Some(Ok((s, vt))) => format!("svd=ok sv={} vt={}", list(s.iter(), |v| hex64c(*v)), exact2(&from_arr(vt))),
+    };
+    let op = format!("fit n={} p={} k={} w={} x={} {} q={}", n, p, k, w as u8, exact2(&x), svd_s, exact2(&q));
+    em.count(&format!("kind:{}", kind));
+    em.count(&format!("whiten:{}", w as u8));
+    em.count(if guard_rejects { "stream:guard_error" } else { "stream:valid" });
+    if !guard_rejects {
+        em.count(if k == p { "k:full" } else if k == 1 { "k:one" } else { "k:mid" });
+        em.count(&format!("regime:{}", regime(k, p)));
+    }
+    let covered = n > p && p >= 1 && k >= 1 && k <= p;
+    let body = move |ctx: &mut Ctx| -> String {
+        match fit_pca(&x, p, k, w) {
+            Err(e) => {
+                if covered {
+                    ctx.fail("fit_succeeds", &format!("data={};{};whiten={}", kind, regime(k, p), w as u8), format!("fit returned {} on n={} p={} k={}", show_err(&e), n, p, k));
+                } else if n > 0 && p >= k && k > 0 {
+                    // n <= p: outside the quantifier, no promise either way
+                } else {
+                    // the statement: empty dataset or embedding size outside 1..p is an error
+                }
+                show_err(&e)
+            }
+            Ok(f) => {
+                if n == 0 || k == 0 || k > p {
+                    ctx.fail("error_on_bad_input", &format!("n={};k_vs_p={}", if n == 0 { "0" } else { "pos" }, if k == 0 { "zero" } else if k > p { "above" } else { "in" }), format!("fit succeeded on n={} p={} k={}", n, p, k));
+                }
+                if covered {
+                    oracle(ctx, kind, &x, p, k, w, &f);
+                }
+                let z = predict(&f.model, &q, p);
+                let inv = inverse(&f.model, &z);
+                format!(
+                    "ok mean={} sigma={} comp={} ev={} evr={} z={} inv={}",
+                    list(f.mean.iter(), |v| hex64c(*v)),
+                    list(f.sigma.iter(), |v| hex64c(*v)),
+                    exact2(&f.comp),
+                    list(f.ev.iter(), |v| hex64c(*v)),
+                    list(f.evr.iter(), |v| format!("~{}", hex64c(*v))),
+                    approx2(&z),
+                    approx2(&inv)
+                )
+            }
+        }
+    };
+    if covered {
+        em.case_valid(op, &format!("data={};{};whiten={}", kind, regime(k, p), w as u8), body);
+    } else {
+        em.case(op, body);
+    }
+}
+
+fn queries(rng: &mut Rng, x: &Mat, p: usize) -> Mat {
+    let mut q: Mat = vec![];
+    for _ in 0..2.min(x.len()) {
+        q.push(x[rng.below(x.len())].clone());
+    }
+    // one new point on the lattice, one generic
+    q.push((0..p).map(|_| rng.range(-4, 4) as f64).collect());
+    q.push((0..p).map(|_| gauss(rng) * 3.0).collect());
+    q
+}
+
+pub fn run(em: &mut Em, rng: &mut Rng) {
+    let thorough = em.thorough();
+    if std::env::var("VERIF_C18_PANICS").is_ok() {
+        // debugging aid: show where the implementation panics
+        std::panic::set_hook(Box::new(|i| eprintln!("{}", i)));
+    }
+    let (pmax, nextra, reps) = if thorough { (10usize, 120usize, 12usize) } else { (7usize, 30usize, 4usize) };
+
+    // fixed witnesses first: the 6x3 matrix of DESIGN section 8 #13, all k, both flags
+    let w63: Mat = vec![vec![2.0, 0.0, 1.0], vec![-1.0, 3.0, 0.0], vec![0.0, -2.0, 4.0], vec![5.0, 1.0, -3.0], vec![-4.0, -1.0, -1.0], vec![1.0, 2.0, 2.0]];
+    for k in 1..=3 {
+        for w in [false, true] {
+            let q = vec![w63[0].clone(), vec![1.0, 1.0, 1.0]];
+            op_fit(em, "lattice", w63.clone(), 3, k, w, q);
+        }
+    }
+
+    // valid stream: every kind × p × all k × whitening
+    for rep in 0..reps {
+        for kind in KINDS {
+            for p in 1..=pmax {
+                if kind == "rank_deficient" && p < 2 {
+                    continue;
+                }
+                // n > p: close to p, moderate, larger
+                let n = match (rep + p) % 3 {
+                    0 => p + 1 + rng.below(2),
+                    1 => p + 2 + rng.below(nextra / 3 + 1),
+                    _ => p + 1 + rng.below(nextra + 1),
+                };
+                let x = gen_matrix(rng, kind, n, p);
+                let q = queries(rng, &x, p);
+                for k in 1..=p {
+                    for w in [false, true] {
+                        op_fit(em, kind, x.clone(), p, k, w, q.clone());
+                    }
+                }
+            }
+        }
+    }
+
+    // wide stream: p >= 5k, the regime LOBPCG is meant for
+    let wide: &[usize] = if thorough { &[5, 6, 8, 10, 12, 16, 20, 30, 40] } else { &[5, 6, 8, 10, 15, 20] };
+    for rep in 0..(if thorough { 6 } else { 2 }) {
+        for kind in KINDS {
+            for &p in wide {
+                let n = p + 1 + rng.below(if rep % 2 == 0 { 3 * p } else { nextra + 1 });
+                let x = gen_matrix(rng, kind, n, p);
+                let q = queries(rng, &x, p);
+                for k in 1..=(p / 5) {
+                    for w in [false, true] {
+                        op_fit(em, kind, x.clone(), p, k, w, q.clone());
+                    }
+                }
+            }
+        }
+    }
+
+    // error stream: empty dataset, k = 0, k > p (also together), n <= p (outside the quantifier)
+    let nerr = if thorough { 400 } else { 80 };
+    for _ in 0..nerr {
+        let p = 1 + rng.below(5);
+        let which = rng.below(5);
+        let (n, k) = match which {
+            0 => (0, rng.below(p + 2)),
+            1 => (1 + rng.below(8), 0),
+            2 => (1 + rng.below(8), p + 1 + rng.below(3)),
+            3 => (0, 0),
+            _ => (1 + rng.below(p), 1 + rng.below(p)), // n <= p, valid k: not covered, correspondence only
+        };
+        let x: Mat = (0..n).map(|_| (0..p).map(|_| rng.range(-5, 5) as f64).collect()).collect();
+        let q: Mat = vec![(0..p).map(|_| rng.range(-3, 3) as f64).collect()];
+        em.count(match which { 0 | 3 => "err:n=0", 1 => "err:k=0", 2 => "err:k>p", _ => "uncovered:n<=p" });
+        op_fit(em, "lattice", x, p, k, rng.coin(), q);
+    }
+}
